@@ -51,5 +51,33 @@ package binary
 //@   ensures dynamic_ndarray: isGenT(t) && typeof(dim(t)) == *dsl.Array && dim(t).(*dsl.Array) != nil && !dim(t).(*dsl.Array).IsFixed() && !dim(t).(*dsl.Array).HasKnownNumberOfDimensions() ==> result == "_binary.DynamicNDArraySerializer(" + scalarSer(gen(t), contextNamespace, namedType) + ")"
 //@   ensures map_key_then_value: isGenT(t) && typeof(dim(t)) == *dsl.Map && dim(t).(*dsl.Map) != nil ==> result == "_binary.MapSerializer(" + typeSerializer(dim(t).(*dsl.Map).KeyType, contextNamespace, namedType) + ", " + typeSerializer(gen(t).ToScalar(), contextNamespace, namedType) + ")"
 
+// A record is written as its fields, one after the other, in declaration order, each with the serializer of its type
+// (docs/reference/binary.md, Records): the generated serializer class hands exactly that list to RecordSerializer, and
+// its write / read methods pass and receive the field values in the same order.
+//@ func writeRecordSerializers$1$1
+//@   property C14,C03
+//@   invariant 0: len(fieldSerializers) == len(td.Fields)
+//@   invariant 0: forall k in 0..rangeindex+1 :: fieldSerializers[k] == "(\"" + common.FieldIdentifierName(td.Fields[k].Name) + "\", " + typeSerializer(td.Fields[k].Type, ns.Name, nil) + ")"
+//@   ensures one_entry_per_field_in_declaration_order: len(lastArg(strings.Join, 0)) == len(td.Fields) && (forall k in 0..len(td.Fields) :: lastArg(strings.Join, 0)[k] == "(\"" + common.FieldIdentifierName(td.Fields[k].Name) + "\", " + typeSerializer(td.Fields[k].Type, ns.Name, nil) + ")")
+//@   ensures the_list_is_handed_to_the_base_class: emitted("super().__init__([%s])\n") == 1 && emittedArg("super().__init__([%s])\n", 0, 0, string) == lastResult(strings.Join) && lastArg(strings.Join, 1) == ", "
+//@ func writeRecordSerializers$1$2
+//@   property C14,C03
+//@   invariant 0: len(fieldAccesses) == len(td.Fields)
+//@   invariant 0: forall k in 0..rangeindex+1 :: fieldAccesses[k] == "value." + common.FieldIdentifierName(td.Fields[k].Name)
+//@   ensures field_values_are_passed_in_declaration_order: len(lastArg(strings.Join, 0)) == len(td.Fields) && (forall k in 0..len(td.Fields) :: lastArg(strings.Join, 0)[k] == "value." + common.FieldIdentifierName(td.Fields[k].Name))
+//@   ensures the_values_are_written: emitted("self._write(stream, %s)\n") == 1 && emittedArg("self._write(stream, %s)\n", 0, 0, string) == lastResult(strings.Join) && lastArg(strings.Join, 1) == ", "
+//@ func writeRecordSerializers$1$3
+//@   property C14,C03
+//@   invariant 0: len(fieldAccesses) == len(td.Fields)
+//@   invariant 0: forall k in 0..rangeindex+1 :: fieldAccesses[k] == "value['" + common.FieldIdentifierName(td.Fields[k].Name) + "']"
+//@   ensures field_values_are_passed_in_declaration_order: len(lastArg(strings.Join, 0)) == len(td.Fields) && (forall k in 0..len(td.Fields) :: lastArg(strings.Join, 0)[k] == "value['" + common.FieldIdentifierName(td.Fields[k].Name) + "']")
+//@   ensures the_values_are_written: emitted("self._write(stream, %s)\n") == 1 && emittedArg("self._write(stream, %s)\n", 0, 0, string) == lastResult(strings.Join) && lastArg(strings.Join, 1) == ", "
+//@ func writeRecordSerializers$1$4
+//@   property C14,C03
+//@   invariant 0: len(args) == len(td.Fields)
+//@   invariant 0: forall k in 0..rangeindex+1 :: args[k] == common.FieldIdentifierName(td.Fields[k].Name) + "=field_values[" + itoa(k) + "]"
+//@   ensures field_k_takes_value_k: len(lastArg(strings.Join, 0)) == len(td.Fields) && (forall k in 0..len(td.Fields) :: lastArg(strings.Join, 0)[k] == common.FieldIdentifierName(td.Fields[k].Name) + "=field_values[" + itoa(k) + "]")
+//@   ensures all_values_are_read_first: emitted("field_values = self._read(stream)\n") == 1
+
 // Output and diagnostics may not depend on the iteration order of a Go map (C12): decided per `range` over a map.
 //@ map-order C12 package
